@@ -115,11 +115,13 @@ SHAPES: list[dict[str, Any]] = [
     shape("default_settings", fn(f"(node: IntExpr, {E}, settings: Settings = None) -> None"), "either", ["IntExpr"]),
     shape("default_settings_noret", fn(f"(node: IntExpr, {E}, settings: Settings = None)"), "either", ["IntExpr"]),
     shape("posonly", fn(f"(node: IntExpr, errors: list[Error], /) -> None"), "either", ["IntExpr"]),
+    shape("posonly_settings", fn(f"(node: IntExpr, {E}, settings: Settings, /) -> None"), "either", ["IntExpr"], True),
     shape("future_annotations", fn(f"(node: IntExpr, {E}) -> None"), "either", ["IntExpr"], future=True),
     # a check wrapped by a functools.wraps decorator (timing, logging, caching wrappers): the loader validates the wrapped
     # signature, so whoever calls it must count the same parameters
     shape("wrapped_v2", WRAP + "@_deco\n" + fn(f"(node: IntExpr, {E}) -> None"), "either", ["IntExpr"]),
     shape("wrapped_v3", WRAP + "@_deco\n" + fn(f"(node: IntExpr, {E}, settings: Settings) -> None"), "either", ["IntExpr"], True),
+    shape("wrapped_v3_args", WRAP.replace("*args, **kwargs", "*args") + "@_deco\n" + fn(f"(node: IntExpr, {E}, settings: Settings) -> None"), "either", ["IntExpr"], True),
     # invalid signatures behind the same wrapper: still rejected at the check's own definition (its decorator line or its def line)
     shape("wrapped_bad_node", WRAP + "@_deco\n" + fn(f"(node: int, {E}) -> None"), "invalid"),
     shape("wrapped_bad_errors", WRAP + "@_deco\n" + fn("(node: IntExpr, errors: list) -> None"), "invalid"),
